@@ -87,6 +87,8 @@ def run(ctx):
                             "certificate of the shift pass (hypothesis shift_cert_ok = true of c05_shift_certificate_optimal / c05_certified_shift_never_worsens)"),
                            ("pos_diff", "the positions written by runShiftsOnCells are not potential(cell) - potential(fixed)",
                             "correspondence of coq/ShiftLp.v positions_of (theorem c05_certified_shift_never_worsens)"),
+                           ("state_hypotheses_fail", "the state a shift pass ran on does not satisfy the hypotheses of the theorem (x of a row cell differs from the x model, or a selected cell is not a cell of the x model)",
+                            "hypotheses `consistent` / selected cells in range of c05_certified_shift_never_worsens"),
                            ("driver_fail", "a shift-pass record could not be evaluated by the model driver", "shift-LP correspondence (harness/dopt.cpp hook record <-> ocaml/driver_shift.ml)")):
         if lp[key]:
             broken.append((what + " (%d of %d calls)" % (len(lp[key]), lp["records"]),
